@@ -400,7 +400,10 @@ impl SliceProbe {
         let (wtx, rx) = channel::<i64>();
         std::thread::spawn(move || {
             while let Ok((m, start)) = wrx.recv() {
-                let cap = m.len() + 1;
+                // the unrepaired walk is a function of the offset alone: more
+                // labels than octets means it never ends; a repaired iterator
+                // may legitimately yield up to a name's worth of labels more
+                let cap = m.len() + 300;
                 let r = catch_unwind(AssertUnwindSafe(|| {
                     let mut n = 0usize;
                     for l in Label::iter_slice(&m, start) {
